@@ -426,7 +426,12 @@ func (v *Value) IterateOrder(fn func(idx, count int, key, value *Value) bool, em
 
 		itemCount := v.getResolvedValue().Len()
 		for i := 0; i < itemCount; i++ {
-			items = append(items, &Value{val: v.getResolvedValue().Index(i)})
+			item := v.getResolvedValue().Index(i)
+			if item.Kind() == reflect.Interface {
+				// []any and the like: sort and compare by what the element holds
+				item = item.Elem()
+			}
+			items = append(items, &Value{val: item})
 		}
 
 		if sorted {
